@@ -517,7 +517,7 @@ pub fn property_c11() -> Property {
             Sub::enumerated("hashfn_small", gnu_hs, enum_hash_small, true),
             Sub::new("hashfn_random", gnu_hr, 80, 2_000_000, 40_000_000),
         ],
-        extras: vec![],
+        extras: vec![crate::fuzz::c11_choice_well, crate::fuzz::c11_choice_sound],
     }
 }
 
@@ -533,6 +533,6 @@ pub fn property_c12() -> Property {
             Sub::enumerated("hashfn_small", sysv_hs, enum_hash_small, true),
             Sub::new("hashfn_random", sysv_hr, 80, 2_000_000, 40_000_000),
         ],
-        extras: vec![],
+        extras: vec![crate::fuzz::c12_choice_well, crate::fuzz::c12_choice_sound],
     }
 }
